@@ -1,5 +1,6 @@
 import Vflow.Proofs.SkipV9
 import Vflow.Proofs.SkipIpfix
+import Vflow.Props.C02Flow
 /-!
 # C09 — an undecodable set never corrupts its neighbours; truncation never fabricates
 
@@ -474,5 +475,36 @@ example :
       (Ipfix.skipped_of_undecodable exAddr exCache 999 [1, 2, 3, 4, 5] (by decide) (by decide)
         (.inl ⟨by decide, by decide⟩))
       (ok_ne_fuel (m := ([10, 56, 1, 2, 3], [exRec1, exRec2], [])) rfl)).1, rfl⟩
+
+/-! ## The fuel hypothesis discharged
+
+`decode_skips` was stated with the hypothesis that the decode without the inserted set does not
+exhaust its fuel; `C02Flow.*_terminates` proves that for every cache and every octet string. -/
+
+/-- **C09 (a), whole message, NetFlow v9** — `decode_skips` without the fuel hypothesis -/
+theorem V9.decode_skips' (c : Cache) (addr hdr pre post u : Bytes) (e : Option Err)
+    (h : Hdr) (k k1 : Nat) (c1 : Cache) (recs1 : List Record) (errs1 : List Err)
+    (hh : V9.readHeader ⟨hdr, 0⟩ = some (h, ⟨[], k⟩))
+    (hpre : V9.outer addr (pre.length + 1) ⟨⟨pre, k⟩, c, []⟩ [] = (⟨⟨[], k1⟩, c1, recs1⟩, none, errs1))
+    (hs : V9.Skipped addr c1 u e) :
+    V9.recordsOf (V9.decode c addr (hdr ++ (pre ++ (u ++ post)))).1 =
+      V9.recordsOf (V9.decode c addr (hdr ++ (pre ++ post))).1 ∧
+    (V9.decode c addr (hdr ++ (pre ++ (u ++ post)))).2 = (V9.decode c addr (hdr ++ (pre ++ post))).2 :=
+  let r := V9.decode_skips c addr hdr pre post u e h k k1 c1 recs1 errs1 hh hpre hs
+    (C02Flow.v9_terminates c addr (hdr ++ (pre ++ post)))
+  ⟨r.1, r.2.1⟩
+
+/-- **C09 (a), whole message, IPFIX** — `decode_skips` without the fuel hypothesis -/
+theorem Ipfix.decode_skips' (c : Cache) (addr hdr pre post u : Bytes) (e : Option Err)
+    (h : Hdr) (k k1 : Nat) (c1 : Cache) (recs1 : List Record) (errs1 : List Err)
+    (hh : Ipfix.readHeader ⟨hdr, 0⟩ = some (h, ⟨[], k⟩))
+    (hpre : Ipfix.outer addr (pre.length + 1) ⟨⟨pre, k⟩, c, []⟩ [] = (⟨⟨[], k1⟩, c1, recs1⟩, none, errs1))
+    (hs : Ipfix.Skipped addr c1 u e) :
+    Ipfix.recordsOf (Ipfix.decode c addr (hdr ++ (pre ++ (u ++ post)))).1 =
+      Ipfix.recordsOf (Ipfix.decode c addr (hdr ++ (pre ++ post))).1 ∧
+    (Ipfix.decode c addr (hdr ++ (pre ++ (u ++ post)))).2 = (Ipfix.decode c addr (hdr ++ (pre ++ post))).2 :=
+  let r := Ipfix.decode_skips c addr hdr pre post u e h k k1 c1 recs1 errs1 hh hpre hs
+    (C02Flow.ipfix_terminates c addr (hdr ++ (pre ++ post)))
+  ⟨r.1, r.2.1⟩
 
 end Vflow.C09
